@@ -4,6 +4,7 @@
 mod args;
 mod engines;
 mod indep;
+mod model;
 mod mon;
 mod report;
 mod rng;
@@ -25,6 +26,8 @@ fn main() {
             return;
         }
         "fsm" => engines::fsm::run(&args),
+        "model" => engines::model::run(&args),
+        "scratch" => engines::scratchpad::run(&args),
         other => {
             eprintln!("unknown engine {other}");
             std::process::exit(2);
